@@ -12,15 +12,20 @@
 //                                       "ok w=<nwarn> refs=<ok|bad:array>"   and with x (exercise an accepted
 //                                       model: mj_makeData, mj_forward, 2 x mj_step, mj_deleteData):
 //                                       "ok w=.. refs=.. ex=<ok|nodata|error:msg>"
+//                                    a load or exercise taking more than 20 s ends the process with "HANG load|exercise"
 //   mjbroundtrip <m>                 -> "eq" | "ne <what>"      load(save(m)) compared with m over every size,
 //                                       mjOption/mjVisual/mjStatistic and every array of MJMODEL_POINTERS
 //   mjbfile <m> <hexpath>            -> save to a file via mj_saveModel(filename), reload through mju_openResource+mj_loadModelBuffer,
 //                                       compare as above -> "eq <filesize>" | "ne <what>"
+#include <signal.h>
 #include <stdint.h>
 #include "mjdrv_common.h"
 extern "C" const char* mj_validateReferences(const mjModel* m);
 
 static std::map<int, std::vector<unsigned char>> g_img;
+// watchdog: a load or an exercise that does not come back within the limit ends the process with a HANG line
+static const char* g_stage = "-";
+static void mjb_on_alarm(int) { char b[64]; int n = snprintf(b, sizeof b, "\nHANG %s\n", g_stage); if (n > 0) { ssize_t w = write(1, b, (size_t)n); (void)w; } _exit(71); }
 
 struct ArrInfo { const char* name; size_t elsize; const char* nr; long long nc; size_t bytes; const void* ptr; };
 static std::vector<ArrInfo> mjb_arrays(const mjModel* m) {
@@ -138,8 +143,10 @@ static bool mjb_extra(const std::vector<std::string>& t, const std::vector<std::
     if (len) memcpy(buf, full.data(), len);
     hx_nwarn = 0; hx_warn[0] = 0;
     mjModel* volatile m = nullptr;
+    g_stage = "load"; signal(SIGALRM, mjb_on_alarm); alarm(20);
     if (HX_TRY) { m = mj_loadModelBuffer(buf, (int)len); HX_END; }
-    else { free(buf); printf("error %s\n", onel(hx_err).c_str()); return true; }
+    else { alarm(0); free(buf); printf("error %s\n", onel(hx_err).c_str()); return true; }
+    alarm(0);
     free(buf);
     if (!m) { printf("null w=%d %s\n", hx_nwarn, tohex(hx_warn, strlen(hx_warn)).c_str()); return true; }
     int w = hx_nwarn;
@@ -147,12 +154,14 @@ static bool mjb_extra(const std::vector<std::string>& t, const std::vector<std::
     std::string exs;
     if (ex) {
       mjData* volatile d = nullptr;
+      g_stage = "exercise"; alarm(20);
       if (HX_TRY) {
         d = mj_makeData(m);
         if (!d) exs = "nodata";
         else { mj_forward(m, d); mj_step(m, d); mj_step(m, d); mj_deleteData(d); d = nullptr; exs = "ok"; }
         HX_END;
       } else { exs = "error:" + tohex(hx_err, strlen(hx_err)); }
+      alarm(0);
     }
     mj_deleteModel(m);
     if (ex) printf("ok w=%d refs=%s ex=%s\n", w, refs.c_str(), exs.c_str());
